@@ -16,16 +16,18 @@
    Design    = transcription of jedi/api/project.py  Project.__init__, save, load, _get_base_sys_path,
                _get_sys_path, _remove_duplicates_from_path, get_default_project  and of the use
                Script / InferenceState.get_sys_path / Importer._sys_path_with_modifications make of it.
-   Deviations of the code from the Reference are modelled as they are and named KF_*; the constants
-   FixEnvPath / FixRelProject switch the Design to the proposed repairs.                            *)
+   Two deviations of the code from the Reference were found with this spec, confirmed on the real code
+   and repaired in /repo (environment_path given as Path; relative Path project).  Their input shapes
+   are named KF_*.  The constants FixEnvPath / FixRelProject = TRUE model the code as it is now; FALSE
+   switches the Design back to the code before the repair (what-if runs of the check, which must fail). *)
 EXTENDS Naturals, Sequences, FiniteSets, TLC, Json
 
 CONSTANTS MaxSys, MaxAdded, MaxDepth,   \* bounds of the input space
           MaxChain,                     \* directories in a discovery chain
           SysIdx, AddedIdx,             \* which pool entries may appear in sys_path / added_sys_path
           EmitMod, EmitRem,             \* slice of the cases printed for replay
-          FixEnvPath,                   \* FALSE: code as it is (environment_path stored as given)
-          FixRelProject                 \* FALSE: code as it is (only a str project path is made absolute)
+          FixEnvPath,                   \* TRUE: code as it is; FALSE: before the repair (environment_path stored as given)
+          FixRelProject                 \* TRUE: code as it is; FALSE: before the repair (only a str path made absolute)
 
 ---------------------------------------------------------------------------
 (* Python: the semantics of the values involved *)
@@ -173,10 +175,11 @@ RefDiscoverOK(chain, res) ==
 \* Project.__init__.  a = [path : Arg, envp : <<>>|<<Arg>>, sysp : <<>>|<<Seq(Arg)>>, added : Seq(Arg),
 \*                         smart, unsafe]
 DesignInit(a) ==
-  [path   |-> \* `if isinstance(path, str): path = Path(path).absolute()`  -- DEVIATION KF_RelProject:
-              \* a pathlib.Path is stored as given, a relative one stays relative
+  [path   |-> \* `self._path = Path(path).absolute()`.  Before the repair (KF_RelProject, FixRelProject = FALSE):
+              \* `if isinstance(path, str): ...` -- a pathlib.Path was stored as given, a relative one stayed relative
               IF ~a.path.isPath \/ FixRelProject THEN PyAbsolute(a.path.sp) ELSE PyPath(a.path.sp),
-   envp   |-> \* `self._environment_path = environment_path`  -- DEVIATION KF_EnvPath: not str()-ed
+   envp   |-> \* `None if environment_path is None else str(environment_path)`.  Before the repair (KF_EnvPath,
+              \* FixEnvPath = FALSE): stored as given, so a Path made json.dump raise in save()
               IF a.envp = <<>> THEN <<>>
               ELSE IF FixEnvPath THEN <<Arg(PyStr(a.envp[1]), FALSE)>> ELSE a.envp,
    sysp   |-> IF a.sysp = <<>> THEN <<>> ELSE <<MapStr(a.sysp[1])>>,   \* list(map(str, sys_path))
@@ -377,7 +380,7 @@ CandOf(r1) == FirstOccRef(AbsComps(r1) \o AncSeq(In) \o <<In.proj>>
 CandSeq == CandOf(SysPath(TRUE, TRUE))
 Winner(H) == DesignWinner(Proj, EnvSysPath, Script, InitDirs, H)
 
-\* the shapes of the two confirmed deviations (known findings)
+\* the input shapes of the two confirmed (and since repaired) deviations
 KF_EnvPath    == Args.envp # <<>> /\ Args.envp[1].isPath
 KF_RelProject == Args.path.isPath /\ ~Args.path.sp.abs
 
@@ -389,7 +392,8 @@ ImportStrict    == LET r1 == SysPath(TRUE, TRUE)      \* what DesignWinner walks
                    IN \A i \in 1..Len(cs) : \A j \in i..Len(cs) :
                         LET H == {cs[i], cs[j]} IN RefWinnerOK(FirstHolding(r1, H), inn, H)
 
-\* Design |= Reference, outside the known shapes
+\* Design |= Reference outside the known shapes (used while the deviations were unrepaired; with the Fix*
+\* constants TRUE the check uses the *Strict invariants directly)
 InvRoundTrip == ~KF_EnvPath => RoundTripStrict
 InvSysPath   == ~KF_RelProject => SysPathStrict
 InvImport    == ~KF_RelProject => ImportStrict
